@@ -395,10 +395,11 @@ pub fn de_target(t: usize, input: &[u8], via_reader: bool, piece: usize) -> Resu
     }
 }
 
-pub const TOKENS: [&str; 27] = [
+pub const TOKENS: [&str; 29] = [
     "<a>", "</a>", "<b>", "</b>", "<a/>", "<b x=\"1\"/>", "<c x=\"1\">", "</c>", "t", " ", "1", "<![CDATA[c]]>", "<![CDATA[]]>", "<!--c-->",
     "<!DOCTYPE d>", "<?p?>", "&lt;", "&bad;", "<a xsi:nil=\"true\">", "<a x=\"1\" x=\"2\">", "<a x=>", "<a \"k='v\">", "<a xmlns:xsi=\"http://www.w3.org/2001/XMLSchema-instance\" xsi:nil=\"1\"/>", "1\t2 \r\n3", "<b x=\"1\t2\n 3\"/>",
     "<a xmlns:xsi=\"http://www.w3.org/2001/XMLSchema-instance\" xsi:nil=\"true\">", "<b xmlns:n=\"http://www.w3.org/2001/XMLSchema-instance\" n:nil=\"1\">",
+    "<!-->", "&#xD800;&#x0;",
 ];
 
 // ------------------------------------------------------------------------------------------------
